@@ -421,17 +421,21 @@ def local_defs(func) -> dict:
     return {k: v for k, v in vals.items() if counts.get(k) == 1}
 
 
-def inline_node(expr: ast.AST, defs: dict, depth: int = 0) -> ast.AST:
-    """Fresh copy of expr with single-assignment locals substituted by their definitions (symbolic inlining)."""
+def inline_node(expr: ast.AST, defs: dict, depth: int = 0, no_calls: bool = False) -> ast.AST:
+    """Fresh copy of expr with single-assignment locals substituted by their definitions (symbolic inlining).
+    no_calls: a local whose definition contains a call (clock read, I/O) stays an opaque atom — two reads are not the same value."""
 
     class T(ast.NodeTransformer):
         def visit_Name(self, n):
             if isinstance(n.ctx, ast.Load) and n.id in defs and depth < 10:
-                return inline_node(defs[n.id], defs, depth + 1)
+                d = defs[n.id]
+                if no_calls and any(isinstance(x, (ast.Call, ast.Await)) for x in ast.walk(d)):
+                    return n
+                return inline_node(d, defs, depth + 1, no_calls)
             return n
 
     return T().visit(clone(expr))
 
 
-def inline(expr: ast.AST, defs: dict) -> str:
-    return u(inline_node(expr, defs))
+def inline(expr: ast.AST, defs: dict, no_calls: bool = False) -> str:
+    return u(inline_node(expr, defs, no_calls=no_calls))
